@@ -282,7 +282,23 @@ fn spending(cfg: &Cfg, rep: &mut Report, h: u64, steps: usize, to_bound: bool) {
     let by2 = call(&w, &policy, &account, "install", args!(e, by_params.clone(), r_other.clone(), account.clone()), true);
     let bystanders_ok = by1.is_ok() && by2.is_ok();
     let data = |w: &World| -> Option<SpendingLimitData> { invoke(&w.env, &policy, "get_spending_limit_data", args!(&w.env, 7u32, account.clone())).ok() };
+    // an account that never installs the policy: nothing may be enforced for it, at any time
+    let account_c = w.account();
+    let never_installed = |rep: &mut Report, w: &World, site: &str| {
+        let e = &w.env;
+        let ctx = transfer_ctx(e, &token, &account_c, &dest, 1);
+        let ce: Result<bool, Fail> = invoke(e, &policy, "can_enforce", args!(e, ctx.clone(), some.clone(), r.clone(), account_c.clone()));
+        let en = call(w, &policy, &account_c, "enforce", args!(e, ctx, some.clone(), r.clone(), account_c.clone()), true);
+        let d: Result<SpendingLimitData, Fail> = invoke(e, &policy, "get_spending_limit_data", args!(e, 7u32, account_c.clone()));
+        rep.evaluations += 3;
+        rep.case(format!("spending/never-installed/{site}/can_enforce={}/enforce={}", tag(&ce), tag(&en)));
+        rep.check("ref", ce == Ok(false) && en.is_err() && d.is_err(), "C14/ref/spending/account-that-never-installed-the-policy", || format!("{site}: can_enforce {ce:?}, enforce {en:?}, data {:?}", d.as_ref().map(|_| "present").map_err(|f| f.tag())));
+    };
+    never_installed(rep, &w, "start");
     for step in 0..steps {
+        if step % 25 == 24 {
+            never_installed(rep, &w, "later");
+        }
         let cur = w.ledger();
         let k = if !installed { 0 } else if to_bound { 30 + rng.below(60) } else { rng.below(100) };
         if k < 8 {
